@@ -73,6 +73,10 @@ func (p *Program) memoTable(g *ssa.Global) *memoInfo {
 					if mi.valueType != nil && !types.Identical(mi.valueType, val.Type()) {
 						return mi
 					}
+					// a value with reference semantics is shared by every later hit: nobody may write through it
+					if isRefType(val.Type()) && !p.memoValueReadOnly(fn, val) {
+						return mi
+					}
 					mi.valueType = val.Type()
 					stores++
 				default:
@@ -129,7 +133,49 @@ func pureFunctionOf(v, key ssa.Value, fn *ssa.Function, depth int, seen map[ssa.
 			}
 		}
 		return true
+	case *ssa.MakeSlice:
+		// a fresh slice: its extent and everything stored into it must be pure too
+		if !pureFunctionOf(x.Len, key, fn, depth+1, seen) || !pureFunctionOf(x.Cap, key, fn, depth+1, seen) {
+			return false
+		}
+		for _, b := range fn.Blocks {
+			for _, in := range b.Instrs {
+				if st, ok := in.(*ssa.Store); ok && rootOf(st.Addr) == ssa.Value(x) {
+					if !pureFunctionOf(st.Val, key, fn, depth+1, seen) || !pureFunctionOf(st.Addr, key, fn, depth+1, seen) {
+						return false
+					}
+				}
+			}
+		}
+		return true
 	case *ssa.Call:
+		if x.Call.IsInvoke() {
+			// the methods of reflect.Type only describe a type
+			if !isPureName("invoke:" + typeName(x.Call.Value.Type()) + "." + x.Call.Method.Name()) {
+				return false
+			}
+			if !pureFunctionOf(x.Call.Value, key, fn, depth+1, seen) {
+				return false
+			}
+			for _, a := range x.Call.Args {
+				if !pureFunctionOf(a, key, fn, depth+1, seen) {
+					return false
+				}
+			}
+			return true
+		}
+		if b, ok := x.Call.Value.(*ssa.Builtin); ok {
+			switch b.Name() {
+			case "len", "cap", "min", "max":
+				for _, a := range x.Call.Args {
+					if !pureFunctionOf(a, key, fn, depth+1, seen) {
+						return false
+					}
+				}
+				return true
+			}
+			return false
+		}
 		f := x.Call.StaticCallee()
 		if f == nil || !isPureName(calleeName(f)) || strings.HasPrefix(calleeName(f), "time.Now") {
 			return false
@@ -173,4 +219,81 @@ func pureFunctionOf(v, key ssa.Value, fn *ssa.Function, depth int, seen map[ssa.
 		return pureFunctionOf(x.X, key, fn, depth+1, seen)
 	}
 	return false
+}
+
+func isRefType(t types.Type) bool {
+	switch t.Underlying().(type) {
+	case *types.Slice, *types.Map, *types.Pointer, *types.Chan:
+		return true
+	}
+	return false
+}
+
+// memoValueReadOnly: the cached value (a slice, map or pointer) is never written after it was stored: in the
+// function that stores it, the value itself and whatever is loaded back from the table are only read or
+// returned, and every in-module caller only reads what it gets back.
+func (p *Program) memoValueReadOnly(fn *ssa.Function, val ssa.Value) bool {
+	readOnlyOrReturned := func(v ssa.Value) bool {
+		refs := v.Referrers()
+		if refs == nil {
+			return true
+		}
+		for _, ref := range *refs {
+			switch r := ref.(type) {
+			case *ssa.Return, *ssa.DebugRef, *ssa.MakeInterface, *ssa.Range, *ssa.Phi:
+			case *ssa.IndexAddr:
+				// element stores that build the value happen before it is published (checked as pure); reads after
+				if v != val && !readOnlyUses(r, 0) {
+					return false
+				}
+			case *ssa.Index, *ssa.Lookup, *ssa.Slice:
+			case ssa.CallInstruction:
+				if b, ok := r.Common().Value.(*ssa.Builtin); ok && (b.Name() == "len" || b.Name() == "cap") {
+					continue
+				}
+				if f := r.Common().StaticCallee(); f != nil && strings.HasPrefix(calleeName(f), "(*sync.Map).") {
+					continue
+				}
+				return false
+			default:
+				return false
+			}
+		}
+		return true
+	}
+	if !readOnlyOrReturned(val) {
+		return false
+	}
+	// values loaded back from the table in this function
+	for _, b := range fn.Blocks {
+		for _, in := range b.Instrs {
+			if ta, ok := in.(*ssa.TypeAssert); ok && types.Identical(ta.AssertedType, val.Type()) {
+				var v ssa.Value = ta
+				if ta.CommaOk {
+					continue
+				}
+				if !readOnlyOrReturned(v) {
+					return false
+				}
+			}
+		}
+	}
+	// callers: what they receive is only read
+	if fn.Object() != nil && fn.Object().Exported() {
+		return false
+	}
+	for _, caller := range p.AllFuncs {
+		for _, b := range caller.Blocks {
+			for _, in := range b.Instrs {
+				c, ok := in.(*ssa.Call)
+				if !ok || c.Call.StaticCallee() != fn {
+					continue
+				}
+				if !valueReadOnly(c, 0) {
+					return false
+				}
+			}
+		}
+	}
+	return true
 }
